@@ -150,9 +150,21 @@ func walCases(c *common.Ctx, cf *common.CaseFile) {
 			}
 			frames = append(frames, [2]uint32{uint32(1 + r.Intn(20)), commit})
 		}
+		if i < 16 {
+			// fixed cases first: one salt word of one frame altered, everything else (the checksum chain does not
+			// cover the salts) intact - for both words, both checksum byte orders, every frame position
+			be = i&1 == 1
+			nf = 4
+			frames = [][2]uint32{{1, 0}, {2, 2}, {3, 0}, {1, 3}}
+		}
 		b := buildWAL(r, ps, be, frames)
 		kind := "valid"
 		switch x := r.Intn(100); {
+		case i < 16:
+			word, k := i>>1&1, i>>2&3
+			kind = fmt.Sprintf("salt%d-of-frame-%d", word+1, k)
+			off := 32 + k*(24+ps) + 8 + 4*word
+			b[off+r.Intn(4)] ^= 1 << uint(r.Intn(8))
 		case x < 25:
 		case x < 40: // truncate at a random point
 			kind = "truncated"
